@@ -3,6 +3,7 @@
 package verifh
 
 import (
+	"crypto/sha256"
 	"fmt"
 	"net/url"
 	"os"
@@ -222,7 +223,12 @@ func (o c11Op) run() c11Res {
 		// a long question (the number written three times over: 3..60 digits, beyond any machine word) and a long hex timestamp
 		long := "1" + dec + dec + dec
 		b2, e7 := otp.ParseDecimalChallengeRFC6287(long)
-		res := c11Res{S: fmt.Sprintf("%x %v|%x %v|%x %v|%x|%x %v|%s|%x %v|%x %x %x %x %x %v|%x %v|%s %d %d", a, e1, b, e2, b2, e7, c, d, e3, e, f, e4,
+		// and a question far beyond 128 bytes (310..330 digits): whatever the helper answers for it — an error, a long slice —
+		// it answers the same whenever it is asked (a constant used as scratch by arbitrary-precision arithmetic is not one)
+		huge := strings.Repeat("9"+dec, 340/(len(dec)+1)+1)[:310+int(o.Counter%21)]
+		b3, e8 := otp.ParseDecimalChallengeRFC6287(huge)
+		hs := sha256.Sum256(b3)
+		res := c11Res{S: fmt.Sprintf("%d:%x %v|%x %v|%x %v|%x %v|%x|%x %v|%s|%x %v|%x %x %x %x %x %v|%x %v|%s %d %d", len(b3), hs[:8], e8 != nil, a, e1, b, e2, b2, e7, c, d, e3, e, f, e4,
 			in.Counter, in.Challenge, in.Password, in.SessionInfo, in.Timestamp, e5, k, e6,
 			otp.AlgorithmFromStr(otp.Algorithm(o.Algo).String()).String(), otp.DigitsFromStr(fmt.Sprint(o.Digits)).Int(), otp.Digits(o.Digits).Int())}
 		// the slices are the caller's now: it wipes them (a decoded key after use). Nothing another call computes may change —
